@@ -792,6 +792,18 @@ func main() {
 		emit(Leaf{K: "P", T: "leaf ", N: size}, []Frame{{K: "W", T: "ctx"}, {K: "E", O: n % 2}})
 		emit(Leaf{K: "G", C: 1 + n%16, T: "leaf ", N: size}, []Frame{{K: "E", O: n % 2}, {K: "W", T: "ctx"}})
 	}
+	// 4b. objects and texts above 1 MiB (every tier): the object itself, the object under wraps, a long text
+	// in front of a short object
+	for _, size := range []int{1310720, 3145728} {
+		for si, sh := range [][]string{{"O"}, {"l", "O", "l"}, {"L", "E"}} {
+			if size > 2000000 && si != 1 && !thorough {
+				continue
+			}
+			n++
+			nlong++
+			emit(Leaf{K: "S", C: (n * 5) % len(classes)}, longFrames(sh, size, n))
+		}
+	}
 	s.Extra["long_cases"] = nlong
 	// 5. very deep chains (a bound on the number of Unwrap steps would show here) and very wide layers
 	ndeep := 0
